@@ -242,3 +242,33 @@ func thenTerminates(ifs *ast.IfStmt) bool {
 	}
 	return false
 }
+
+// mustFlowStates runs the same analysis as mustFlow and returns the fact's value immediately
+// before every node.
+func mustFlowStates(g *cfg.CFG, spec FlowSpec) map[ast.Node]bool {
+	out := map[ast.Node]bool{}
+	t := spec.Target
+	spec.Target = func(n ast.Node) bool { return false }
+	spec.AtReturn = false
+	// reuse mustFlow's fixpoint by recording states through a Target probe: every node is a target,
+	// hits are the nodes reached with the fact false.
+	all := map[ast.Node]bool{}
+	for _, b := range g.Blocks {
+		if b.Live {
+			for _, nd := range b.Nodes {
+				all[nd] = true
+			}
+		}
+	}
+	spec.Target = func(n ast.Node) bool { return true }
+	hits := mustFlow(g, spec)
+	falseAt := map[ast.Node]bool{}
+	for _, h := range hits {
+		falseAt[h.Node] = true
+	}
+	for n := range all {
+		out[n] = !falseAt[n]
+	}
+	_ = t
+	return out
+}
